@@ -245,6 +245,39 @@ func genLogs(rt *rapid.T) logsCase {
 		c.Query = logQueries[rapid.IntRange(0, len(logQueries)-1).Draw(rt, "lq")]
 	}
 	c.Streams = genLogStreams(rt, c.Win)
+	if metric && rapid.IntRange(0, 2).Draw(rt, "emptyFirstBucket") == 0 {
+		// the first range bucket of the (bucket-widened) window holds nothing while the bucket
+		// just before it holds entries: the first point of the answer must not be computed from
+		// those (FixPeriodPlanner would put a bucket starting less than one step before `from`
+		// into slot 0 - only the lower timestamp bound of the statement keeps it away)
+		d := c.RangeS * nsSec
+		lo := floorTo(c.Win.From, d)
+		used := tsSet{}
+		for i := range c.Streams {
+			var keep []Smp
+			for _, sm := range c.Streams[i].Smps {
+				if sm.Ts >= lo && sm.Ts < lo+d {
+					continue
+				}
+				keep = append(keep, sm)
+				used[sm.Ts] = true
+			}
+			c.Streams[i].Smps = keep
+		}
+		s0 := &c.Streams[0]
+		for i, ts := range []int64{lo - 1, lo - r64(rt, 1, d, "justBefore"), lo - d} {
+			if ts = used.near(ts, 1, lo-d, lo-1); ts > 0 {
+				s0.Smps = append(s0.Smps, Smp{Ts: ts, M: fmt.Sprintf("m-s0-jb%d", i)})
+			}
+		}
+		var nonEmpty []Strm
+		for _, st := range c.Streams {
+			if len(st.Smps) > 0 {
+				nonEmpty = append(nonEmpty, st)
+			}
+		}
+		c.Streams = nonEmpty
+	}
 	c.Ver = genVer(rt)
 	return c
 }
@@ -398,6 +431,24 @@ func predLogs(c logsCase, o *evid.Obs) error {
 	}
 	if s0in && (s0out || twin) {
 		o.NonTrivial()
+	}
+	if metric {
+		d := c.RangeS * nsSec
+		first, before := false, false
+		for i := range c.Streams {
+			for _, sm := range c.Streams[i].Smps {
+				if selectedLog(&c.Streams[i]) && sm.Ts >= lo && sm.Ts < lo+d {
+					first = true
+				}
+				if selectedLog(&c.Streams[i]) && sm.Ts >= lo-d && sm.Ts < lo {
+					before = true
+				}
+			}
+		}
+		if !first && before {
+			o.Tag("first-range-bucket-empty,entries-in-bucket-just-before")
+			o.NonTrivial()
+		}
 	}
 
 	describe := func(bs *builtStream) string {
